@@ -32,6 +32,7 @@ DevParseConstants == "Dev_ParseHostConstants"       \* host decoder also accepts
 DevParseNegZero   == "Dev_ParseNegZeroInt"          \* the token -0 (integer syntax) gives +0
 DevParseBigInt    == "Dev_ParseBigIntNotDouble"     \* integer-syntax tokens beyond 2^53 stay host integers
 DevParseNoProto   == "Dev_ParseNoPrototype"         \* results are not linked to Object/Array.prototype
+DevParseSplitPair == "Dev_ParseSplitSurrogateKey"   \* a pair spelled half raw, half escaped stays two code points
 DevFloatRepr      == "Dev_DumpsFloatRepr"           \* float-held numbers print as the host repr (1.0, -0.0, 1e-07)
 DevNonFinite      == "Dev_DumpsNonFinite"           \* NaN, Infinity, -Infinity printed bare
 DevEnsureAscii    == "Dev_DumpsEnsureAscii"         \* every unit above U+007E is \u-escaped
@@ -39,7 +40,7 @@ DevRootNull       == "Dev_StringifyRootNull"        \* undefined / function root
 DevFnNull         == "Dev_StringifyFunctionNull"    \* function-valued property printed as null, not omitted
 DevCycle          == "Dev_StringifyCycleRecursion"  \* cycle ends in a host RecursionError
 DevToStringRepr   == "Dev_ToStringReprLayout"       \* values.to_string: host exponent layout (1e-07, 1e+16)
-ParseDevs == {DevParseEscapes, DevParseConstants, DevParseNegZero, DevParseBigInt, DevParseNoProto}
+ParseDevs == {DevParseEscapes, DevParseConstants, DevParseNegZero, DevParseBigInt, DevParseNoProto, DevParseSplitPair}
 StrDevs   == {DevFloatRepr, DevNonFinite, DevEnsureAscii, DevRootNull, DevFnNull, DevCycle, DevToStringRepr}
 AllDevs   == ParseDevs \cup StrDevs
 
@@ -135,24 +136,36 @@ JDigitsEnd(t, p0) == LET p == p0 IN IF p <= Len(t) /\ JIsDigit(t[p]) THEN JDigit
 
 JEscUnit(e) == CASE e = 34 -> 34 [] e = 92 -> 92 [] e = 47 -> 47 [] e = 98 -> 8 [] e = 102 -> 12
                  [] e = 110 -> 10 [] e = 114 -> 13 [] e = 116 -> 9 [] OTHER -> -1
-\* p: first unit after the opening quote; acc: units so far
-RECURSIVE JScanStr(_, _, _)
-JScanStr(t, p0, acc0) ==
+\* The engine keeps strings as code points.  Its decoder joins a high and a low surrogate into one code point when
+\* both are raw (they arrive as one astral character) or both are \u escapes; a pair spelled half raw, half escaped
+\* stays two code points: a different string for the engine, the same string for ECMAScript.  JCpImage is that
+\* code-point identity (esc[i] = unit i was written as an escape); only Dev_ParseSplitSurrogateKey reads it.
+RECURSIVE JCpImage(_, _, _)
+JCpImage(u, esc, i0) ==
+  LET i == i0 IN
+  IF i > Len(u) THEN <<>>
+  ELSE IF i < Len(u) /\ JIsHi(u[i]) /\ JIsLo(u[i + 1]) /\ esc[i] = esc[i + 1]
+       THEN <<65536 + (u[i] - 55296) * 1024 + (u[i + 1] - 56320)>> \o JCpImage(u, esc, i + 2)
+       ELSE <<u[i]>> \o JCpImage(u, esc, i + 1)
+\* p: first unit after the opening quote; acc: units so far, as [u |-> units, x |-> escape flags]
+RECURSIVE JScanStrX(_, _, _)
+JScanStr(t, p, acc) == JScanStrX(t, p, [u |-> <<>>, x |-> <<>>])
+JScanStrX(t, p0, acc0) ==
   LET p == p0
       acc == acc0
       c == JAt(t, p)
   IN IF c < 32 THEN JFail                                   \* end of text (-1) or a raw control character
-     ELSE IF c = 34 THEN JOk(VStr(acc), p + 1)
+     ELSE IF c = 34 THEN JOk([k |-> "str", u |-> acc.u, x |-> acc.x], p + 1)
      ELSE IF c = 92
           THEN LET e == JAt(t, p + 1) IN
                IF e = 117
                THEN LET h1 == JHexVal(JAt(t, p + 2))  h2 == JHexVal(JAt(t, p + 3))
                         h3 == JHexVal(JAt(t, p + 4))  h4 == JHexVal(JAt(t, p + 5))
                     IN IF h1 < 0 \/ h2 < 0 \/ h3 < 0 \/ h4 < 0 THEN JFail
-                       ELSE JScanStr(t, p + 6, Append(acc, h1 * 4096 + h2 * 256 + h3 * 16 + h4))
+                       ELSE JScanStrX(t, p + 6, [u |-> Append(acc.u, h1 * 4096 + h2 * 256 + h3 * 16 + h4), x |-> Append(acc.x, TRUE)])
                ELSE IF JEscUnit(e) < 0 THEN JFail
-               ELSE JScanStr(t, p + 2, Append(acc, JEscUnit(e)))
-     ELSE JScanStr(t, p + 1, Append(acc, c))
+               ELSE JScanStrX(t, p + 2, [u |-> Append(acc.u, JEscUnit(e)), x |-> Append(acc.x, TRUE)])
+     ELSE JScanStrX(t, p + 1, [u |-> Append(acc.u, c), x |-> Append(acc.x, FALSE)])
 
 \* does the double w equal the decimal integer intD exactly?
 JExactInt(intD, w) == LET d == DFromW(w) IN
@@ -185,10 +198,13 @@ JScanNum(t, p0, dv) ==
                              THEN JOk([k |-> "hostval", u |-> SubSeq(t, p, e1 - 1)], e1)   \* a host integer that is no double
                              ELSE JOk([k |-> "num", w |-> w, r |-> IF isInt THEN "i" ELSE "f"], e1)
 
-JPutKey(acc, key, val) ==
-  LET S == {i \in 1..Len(acc) : acc[i].n = key}
-  IN IF S = {} THEN Append(acc, [n |-> key, v |-> val])
-     ELSE LET i == CHOOSE j \in S : TRUE IN [acc EXCEPT ![i] = [n |-> key, v |-> val]]   \* first position, last value
+\* ks = the scanned key ([u, x]); its identity is the unit sequence (ECMAScript) or the code-point image (as-is)
+JPutKey(acc, ks, val, dv) ==
+  LET key == ks.u
+      id == IF DevParseSplitPair \in dv THEN JCpImage(ks.u, ks.x, 1) ELSE ks.u
+      S == {i \in 1..Len(acc) : acc[i].id = id}
+  IN IF S = {} THEN Append(acc, [n |-> key, v |-> val, id |-> id])
+     ELSE LET i == CHOOSE j \in S : TRUE IN [acc EXCEPT ![i] = [n |-> key, v |-> val, id |-> id]]   \* first position, last value
 
 RECURSIVE JPVal(_, _, _), JPElems(_, _, _, _), JPMembers(_, _, _, _)
 JPVal(t, p0, dv) ==
@@ -227,7 +243,7 @@ JPMembers(t, p, acc0, dv) ==
       r == JPVal(t, cpos + 1, dv)
       q2 == JSkipWs(t, r.p)
       c == JAt(t, q2)
-      acc2 == JPutKey(acc, ks.v.u, r.v)
+      acc2 == JPutKey(acc, ks.v, r.v, dv)
   IN IF JAt(t, q) # 34 THEN JFail
      ELSE IF ~ks.ok THEN JFail
      ELSE IF JAt(t, cpos) # 58 THEN JFail
